@@ -3,7 +3,7 @@
 # demo fails with the change, passes without, test suite unchanged (40 passed, 1 known failure).
 id=$1; wt=${2:-/tmp/wt/$id}; out=${3:-/tmp/seed_out/$id}
 cd $wt || exit 9
-git stash -q 2>/dev/null; git checkout -q -- . ; git apply $out/patch.diff || { echo "$id: patch does not apply"; exit 3; }
+git checkout -q -- . ; git apply $out/patch.diff || { echo "$id: patch does not apply"; exit 3; }
 PYTHONPATH=$wt /venv/bin/python $out/demo.py $wt > $out/demo_with.log 2>&1; a=$?
 git checkout -q -- .
 PYTHONPATH=$wt /venv/bin/python $out/demo.py $wt > $out/demo_without.log 2>&1; b=$?
